@@ -410,7 +410,7 @@ PLAIN_NAMED = re.compile(r"^(?:method:|static-method:)?(?:ret|param|var|member|t
                          r"[\w-]+/([\w-]+)$")
 
 
-def cause_of(cat, sig, printed=""):
+def cause_of(cat, sig, printed="", text=""):
     m = PLAIN_NAMED.match(sig)
     if cat == "rejected-valid" and printed.startswith("died:"):
         return "tool-aborts-on-valid-input," + re.sub(r"[^\w:(),@=<>!&|.*+-]", "_", printed[5:])[:120]
@@ -419,10 +419,12 @@ def cause_of(cat, sig, printed=""):
             return "alias-declaration-starting-with-cv-qualifier"
         if "elab-enum" in sig:
             return "elaborated-enum-specifier"
-        if "^::" in sig:
+        if "^::" in sig or "<::" in text:
             return "template-argument-list-starting-with-scope-operator"
-        if "^volatile" in sig:
+        if "^volatile" in sig or re.search(r"<\s*(const\s+)?volatile\b", text):
             return "template-argument-starting-with-volatile"
+        if "intexpr" in sig and "kFour" in text:
+            return "constexpr-variable-in-template-argument"
         if "alias=" in sig and re.search(r"(ptr|ref|rref|memptr)\((array|fn)\(", sig):
             return "alias-declaration-with-parenthesised-abstract-declarator"
         if re.search(r"(ptr|ref|rref|memptr)\((array|fn)\(", sig) and \
@@ -443,7 +445,7 @@ def cause_of(cat, sig, printed=""):
         return "template-argument-printed-as-unknown"
     if "tmpl-member-" in sig:
         return "member-of-template-instantiation-printed-without-arguments"
-    if re.search(r"(const|volatile) ptr\(fn\(", sig):
+    if re.search(r"(const|volatile) ptr\((ptr\()*fn\(", sig):
         return "cv-qualified-pointer-to-function-misprinted"
     if "memptr(fn(" in sig:
         return "pointer-to-member-function-class-name-not-fully-qualified"
@@ -558,7 +560,7 @@ def judge_tu(b, d, tu, res, case):
             sig = dg.decl_signature(m)
             if i in last:
                 st[i] = last[i]
-            cause = cause_of(cat, sig, str(st[i][1]) if len(st[i]) > 1 else "")
+            cause = cause_of(cat, sig, str(st[i][1]) if len(st[i]) > 1 else "", dg.render_decl(m))
             head = "rejected-valid" if cat == "rejected-valid" else KEYCAT[m["kind"]]
             key = head + ":" + (("cause=" + cause) if cause else sig)
             if key in seen:
@@ -641,7 +643,7 @@ def main(chk):
         "functions at namespace scope are not exported by interrogate and are therefore not generated",
         "wrapper signatures in the -oc file are covered by C03/C11, not here",
     ]
-    n = chk.pick(40, 480)
+    n = chk.pick(32, 400)
     cases = []
     for k in range(n):
         cases.append({"id": k, "seed": chk.rng.getrandbits(48), "n": 50, "hosts": 4,
